@@ -358,6 +358,9 @@ func (f *Frame) applyContractEnv(con *Contract, names []string, args []Val, sig 
 						t = sig.Params().At(i).Type()
 					}
 				}
+				if t == nil && sig == nil && i < len(f.curArgTypes) {
+					t = f.curArgTypes[i] // interface calls: the static types of the call's operands
+				}
 				if t == nil {
 					t = tInt
 				}
